@@ -59,10 +59,10 @@ def run_tlc(module: str, cfg: str, work: Work, workers=16, dump: Path = None, si
             env_extra=None, timeout=3600, extra_args=(), expect_violation=False, coverage=False, tag=None) -> dict:
     """Runs TLC on spec/<module>.tla with spec/<cfg> (cfg may also be an absolute path to a generated file).
     Returns dict(states, generated, out, ok, violated_invariant)."""
-    tag = tag or (module + "-" + Path(cfg).stem)
+    tag = tag or (Path(str(module)).stem + "-" + Path(cfg).stem)
     meta = work.path("meta-" + tag)
     cfg_path = cfg if os.path.isabs(str(cfg)) else str(SPEC / cfg)
-    cmd = ["java", "-XX:+UseParallelGC", "-Xmx8g", "-cp", TLC_CP, "tlc2.TLC", "-workers", str(workers), "-metadir", str(meta),
+    cmd = ["java", "-XX:+UseParallelGC", "-Xmx8g", f"-DTLA-Library={SPEC}", "-cp", TLC_CP, "tlc2.TLC", "-workers", str(workers), "-metadir", str(meta),
            "-noGenerateSpecTE", "-config", cfg_path]
     if dump is not None:
         cmd += ["-dump", str(dump)]
@@ -73,21 +73,23 @@ def run_tlc(module: str, cfg: str, work: Work, workers=16, dump: Path = None, si
     if coverage:
         cmd += ["-coverage", "1"]
     cmd += list(extra_args)
-    cmd += [str(SPEC / (module + ".tla"))]
+    # a generated model-instance module (absolute path, e.g. in the work directory) EXTENDS modules found via TLA-Library
+    cmd += [module if os.path.isabs(str(module)) else str(SPEC / (module + ".tla"))]
     env = dict(os.environ)
     env.pop("JAVA_TOOL_OPTIONS", None)
     if env_extra:
         env.update({k: str(v) for k, v in env_extra.items()})
     t0 = time.time()
     try:
-        p = subprocess.run(cmd, cwd=str(SPEC), env=env, capture_output=True, text=True, timeout=timeout)
+        cwd = str(Path(str(module)).parent) if os.path.isabs(str(module)) else str(SPEC)
+        p = subprocess.run(cmd, cwd=cwd, env=env, capture_output=True, text=True, timeout=timeout)
     except subprocess.TimeoutExpired as e:
         raise MachineryError(f"TLC timed out after {timeout}s: {' '.join(cmd)}") from e
     out = p.stdout + p.stderr
     m = None
     for m in _SUMMARY.finditer(out):
         pass
-    res = {"cmd": " ".join(cmd[5:]), "out": out, "rc": p.returncode, "wall_s": round(time.time() - t0, 2),
+    res = {"cmd": " ".join(cmd[6:]), "out": out, "rc": p.returncode, "wall_s": round(time.time() - t0, 2),
            "generated": int(m.group(1)) if m else 0, "states": int(m.group(2)) if m else 0}
     inv = re.search(r"Invariant (\S+) is violated", out)
     res["violated_invariant"] = inv.group(1) if inv else None
